@@ -1,112 +1,8 @@
 // C04: Sma, Ema (default alpha) and Alma are genuine averages of the values they average.
+use crate::props::c00_affine::*;
 use crate::props::c00_window::*;
 use crate::props::c02_h_sma::*;
 
-// ---------- arithmetic mean of a non-empty sequence ----------
-pub proof fn lemma_sum_bounds(w: Seq<T>)
-    requires w.len() > 0
-    ensures (w.len() as real) * smin(w) <= sum(w) <= (w.len() as real) * smax(w)
-    decreases w.len()
-{
-    if w.len() == 1 {
-        assert(w.drop_last() =~= Seq::<T>::empty());
-        assert(w.last() == w[0]);
-        assert(sum(Seq::<T>::empty()) == 0real);
-        assert(sum(w) == w[0].v());
-        assert(1real * smin(w) == smin(w)) by(nonlinear_arith);
-        assert(1real * smax(w) == smax(w)) by(nonlinear_arith);
-    } else {
-        let u = w.drop_last(); let x = w.last().v(); let k = u.len() as real;
-        lemma_sum_bounds(u);
-        assert(w.len() as real == k + 1real);
-        // smin(w) <= smin(u), smin(w) <= x ; smax(w) >= smax(u), smax(w) >= x
-        assert((k + 1real) * smin(w) <= k * smin(u) + x) by(nonlinear_arith) requires smin(w) <= smin(u), smin(w) <= x, k >= 1real;
-        assert((k + 1real) * smax(w) >= k * smax(u) + x) by(nonlinear_arith) requires smax(w) >= smax(u), smax(w) >= x, k >= 1real;
-    }
-}
-// the mean never leaves the interval spanned by the averaged values
-pub proof fn lemma_mean_in_hull(w: Seq<T>)
-    requires w.len() > 0
-    ensures smin(w) <= rdiv(sum(w), w.len() as real) <= smax(w)
-{
-    lemma_sum_bounds(w);
-    lemma_rdiv_ge_k(sum(w), w.len() as real, smin(w));
-    lemma_rdiv_le_k(sum(w), w.len() as real, smax(w));
-}
-pub open spec fn all_eq(w: Seq<T>, c: real) -> bool { forall|i: int| 0 <= i < w.len() ==> (#[trigger] w[i]).v() == c }
-pub proof fn lemma_sum_const(w: Seq<T>, c: real)
-    requires all_eq(w, c)
-    ensures sum(w) == (w.len() as real) * c
-    decreases w.len()
-{
-    if w.len() > 0 {
-        lemma_sum_const(w.drop_last(), c);
-        assert(w.last() == w[w.len() - 1]);
-        let k = w.drop_last().len() as real;
-        assert((k + 1real) * c == k * c + c) by(nonlinear_arith);
-    } else { assert(0real * c == 0real) by(nonlinear_arith); }
-}
-// a constant window is reproduced exactly
-pub proof fn lemma_mean_const(w: Seq<T>, c: real)
-    requires w.len() > 0, all_eq(w, c)
-    ensures rdiv(sum(w), w.len() as real) == c
-{
-    lemma_sum_const(w, c);
-    let n = w.len() as real;
-    lemma_mul_comm(c, n);
-    lemma_rdiv_unique(c, sum(w), n);
-}
-pub open spec fn pointwise_le(u: Seq<T>, w: Seq<T>) -> bool { u.len() == w.len() && forall|i: int| 0 <= i < u.len() ==> (#[trigger] u[i]).v() <= w[i].v() }
-pub proof fn lemma_sum_monotone(u: Seq<T>, w: Seq<T>)
-    requires pointwise_le(u, w)
-    ensures sum(u) <= sum(w)
-    decreases u.len()
-{
-    if u.len() > 0 {
-        assert(pointwise_le(u.drop_last(), w.drop_last())) by {
-            assert forall|i: int| 0 <= i < u.drop_last().len() implies (#[trigger] u.drop_last()[i]).v() <= w.drop_last()[i].v() by { assert(u.drop_last()[i] == u[i]); assert(w.drop_last()[i] == w[i]); }
-        }
-        lemma_sum_monotone(u.drop_last(), w.drop_last());
-        assert(u.last() == u[u.len() - 1]); assert(w.last() == w[w.len() - 1]);
-    }
-}
-// raising any input never lowers the mean
-pub proof fn lemma_mean_monotone(u: Seq<T>, w: Seq<T>)
-    requires u.len() > 0, pointwise_le(u, w)
-    ensures rdiv(sum(u), u.len() as real) <= rdiv(sum(w), w.len() as real)
-{
-    lemma_sum_monotone(u, w);
-    let n = u.len() as real;
-    lemma_rdiv_mul(sum(u), n); lemma_rdiv_mul(sum(w), n);
-    assert(rdiv(sum(u), n) <= rdiv(sum(w), n)) by(nonlinear_arith) requires rdiv(sum(u), n) * n == sum(u), rdiv(sum(w), n) * n == sum(w), sum(u) <= sum(w), n > 0real;
-}
-pub open spec fn affine(w: Seq<T>, a: real, b: real) -> Seq<T> { Seq::new(w.len(), |i: int| mk(a * w[i].v() + b)) }
-pub proof fn lemma_sum_affine(w: Seq<T>, a: real, b: real)
-    ensures sum(affine(w, a, b)) == a * sum(w) + (w.len() as real) * b
-    decreases w.len()
-{
-    if w.len() > 0 {
-        lemma_sum_affine(w.drop_last(), a, b);
-        assert(affine(w, a, b).drop_last() =~= affine(w.drop_last(), a, b));
-        assert(affine(w, a, b).last().v() == a * w.last().v() + b);
-        let k = w.drop_last().len() as real; let s = sum(w.drop_last()); let x = w.last().v();
-        assert(a * (s + x) + (k + 1real) * b == (a * s + k * b) + (a * x + b)) by(nonlinear_arith);
-    } else {
-        assert(affine(w, a, b) =~= Seq::<T>::empty());
-        assert(a * 0real + 0real * b == 0real) by(nonlinear_arith);
-    }
-}
-// the mean commutes with x -> a x + b
-pub proof fn lemma_mean_affine(w: Seq<T>, a: real, b: real)
-    requires w.len() > 0
-    ensures rdiv(sum(affine(w, a, b)), w.len() as real) == a * rdiv(sum(w), w.len() as real) + b
-{
-    lemma_sum_affine(w, a, b);
-    let n = w.len() as real; let m = rdiv(sum(w), n);
-    lemma_rdiv_mul(sum(w), n);
-    assert((a * m + b) * n == a * (m * n) + n * b) by(nonlinear_arith);
-    lemma_rdiv_unique(a * m + b, sum(affine(w, a, b)), n);
-}
 // Sma over any history: output within [min, max] of exactly the last N values (this is also C07's  Min <= Sma <= Max)
 pub proof fn lemma_sma_is_average(h: Seq<T>, n: nat)
     requires n >= 1, h.len() >= n
